@@ -222,13 +222,20 @@ def crowd_load(task):
     try:
         tree = ceos_alos2.open_alos2(url, backend_options=dict(use_cache=False, records_per_chunk=2))
         das = [tree[f"imagery/{im['group']}/data"] for im in b.images]
+        import sys as _sys
+
+        swi = _sys.getswitchinterval()
         for k in task["threads"]:
             res = {}
+            # alternately the ordinary 5 ms switch interval and 1 us (a thread switch between almost any two byte codes)
+            _sys.setswitchinterval(1e-6 if k % 2 else swi)
 
             def load(i, key):
                 try:
                     for rep in range(task["reps"]):
-                        rows = [(i + rep) % 6, (i + rep + 3) % 6]
+                        # (many DIFFERENT selections: whatever a loader memoises per selection fills up and turns over)
+                        a_, b_ = (i + rep) % 6, (i * 7 + rep * 5 + 3) % 6
+                        rows = [[a_, b_], [a_], list(range(a_, 6)), list(range(0, b_ + 1)), [b_, a_, b_]][(i + rep) % 5]
                         msg = oracle.pixels_match(das[i % 4].isel(rows=rows).values, b.images[i % 4], rows=rows)
                         if msg:
                             res[key] = msg
@@ -251,6 +258,9 @@ def crowd_load(task):
                 if msg:
                     out["bad"].append((f"{k}-threads", f"thread {i} (image {b.images[i % 4]['group']}): {msg}"))
     finally:
+        import sys as _sys2
+
+        _sys2.setswitchinterval(0.005)
         if not any("deadlock" in m for _, m in out["bad"]):
             imgrun.drop_from_fs(url, task["fs"])
     return out
@@ -471,7 +481,7 @@ def body(chk):
     L.instances([dict(file="image", kind="processed", n=6, ndata=6, bps=2), dict(file="image", kind="signal", n=6, ndata=24, bps=8)])
     holds = [12] if nq else [12, 35, 65]
     stalls = [dict(level=("1.5", "1.1")[i % 2], seed=chk.seed + 300 + i, hold=h, via=via) for i, (h, via) in enumerate((h, via) for h in holds for via in ("same", "pickled"))]
-    crowds = [dict(level=("1.5", "1.1")[i % 2], seed=chk.seed + 320 + i, fs=fs, threads=[4, 5, 8, 16] if nq else [4, 5, 6, 8, 12, 16, 32, 64], reps=5 if nq else 40)
+    crowds = [dict(level=("1.5", "1.1")[i % 2], seed=chk.seed + 320 + i, fs=fs, threads=[4, 5, 8, 16] if nq else [4, 5, 6, 8, 12, 16, 32, 64], reps=60 if nq else 300)
               for i, fs in enumerate(("local", "vtrace", "memory", "file"))]
     # one pool for everything (no helper threads in this process: forking from a multi-threaded parent can deadlock the children); the
     # long-running stall / crowd tasks go first so that they overlap with the schedules
